@@ -105,11 +105,16 @@ def run_path(eng, pre, opcode, block_n=None, addr=0x1000, sym_addr=False, known=
                     st, T(at), length, block_limit=block_n)
     except isa.NotSpecified as e:
         return PathOutcome("not-specified", text=text, detail=str(e))
-    if st.defined:
+    defined = z3.BoolVal(True)
+    if st.defined and not branch_check:
         try:
             eng.assume(z3.And(st.defined))
         except core.PathAbort:
             return PathOutcome("outside-domain", text=text)
+    elif st.defined:
+        # C05 runs: the branch obligations must hold everywhere (page boundaries included), so the
+        # documentation's definedness conditions only guard the spec-based obligations
+        defined = z3.And(st.defined)
     sm.reads.clear()
     try:
         ev = emu.execute_instruction(a)
@@ -120,7 +125,6 @@ def run_path(eng, pre, opcode, block_n=None, addr=0x1000, sym_addr=False, known=
         return PathOutcome("exception", exc=type(e).__name__)
     if ev.instruction.length() != length or ev.instruction.name() != instr.name():
         eng.prove("decode-deterministic", z3.BoolVal(False), detail=text)
-    defined = z3.BoolVal(True)
     res = PathOutcome("checked", text=text, length=length)
     free = st.free
     final = {r: T(emu.regs.get(RN[r])) for r in REGS}
@@ -142,7 +146,7 @@ def run_path(eng, pre, opcode, block_n=None, addr=0x1000, sym_addr=False, known=
     def ob(name, cond):
         if branch_check and name.startswith("reg:") and name not in ("reg:PC", "reg:S"):
             return True      # C05 runs: data-path registers are C04's business
-        r = eng.prove(name, cond, detail=text)
+        r = eng.prove(name, z3.Implies(defined, cond) if branch_check else cond, detail=text)
         if r is False and known:
             o = eng.run.obligations[-1]
             for e in known:
@@ -175,13 +179,13 @@ def run_path(eng, pre, opcode, block_n=None, addr=0x1000, sym_addr=False, known=
             pass
     # extensional equality stated point-wise for an arbitrary index k (k is a free symbol, hence
     # universally quantified in the validity check): much cheaper than array extensionality
-    if _pairwise_mem(eng, sm, exp, text):
+    if not branch_check and _pairwise_mem(eng, sm, exp, text):
         mem_ok = True
     else:
         k = z3.BitVec("k!frame", W)
         eng.inputs.setdefault("k!frame", k)
         mem_ok = ob("mem", z3.Select(sm.arr, k) == z3.Select(exp, k))
-    if mem_ok and not sm.arr.eq(exp):
+    if mem_ok and not branch_check and not sm.arr.eq(exp):
         # proved lemma: both memory images are equal; lets values loaded back from memory
         # (vectors, popped values) be compared by congruence instead of store-chain reasoning
         eng.add(sm.arr == exp)
